@@ -34,6 +34,9 @@ pub(crate) struct IncompleteTransfer {
     pub buffer: Vec<Payload>,
     pub section_number: Option<u32>,
     pub section_offset: u64,
+    /// A continuation frame contradicted the first frame and the delivery has been reported
+    /// as an error: the frames still to come belong to it and are dropped with it
+    pub rejected: bool,
 }
 
 impl IncompleteTransfer {
@@ -44,6 +47,7 @@ impl IncompleteTransfer {
             buffer: vec![partial_payload], // TODO: handle payload split across re-attachment
             section_number: Some(number),
             section_offset: offset,
+            rejected: false,
         }
     }
 
